@@ -598,7 +598,7 @@ def e_assert_no_newline(ctx, s):
 def e_send_expect(ctx, s):
     """worker closures: send(..).expect(): the Receiver lives in Txtpp and Drop joins the pool before it is dropped"""
     lv = C.trace(s.b, s.t["args"][0])
-    if not any(l.kind == "call" and C.callee_name(l.data) == "std::sync::mpsc::Sender::<T>::send" for l in lv):
+    if not any(l.kind == "call" and C.callee_name(l.data) in ("std::sync::mpsc::Sender::<T>::send", "std::sync::mpsc::SyncSender::<T>::send") for l in lv):
         return None
     import rules_sched
     if s.b.name not in {cl.name for (_b, _bb, _t, cl) in rules_sched.spawner_bodies(ctx) if cl is not None}:
